@@ -28,6 +28,7 @@ RULE = ('(a) concatenation law: 2-5 independently generated files that differ '
         'variable and there are >= 2 pieces; distinct = digest of the spec.')
 RULE += (" One case in sixteen splits and restacks the object one of the library's READERS returns for a valid image written by the independent codecs (CAMx memory-mapped and record readers, bpch1, bpch2, arlpackedbit, ffi1001) along a dimension drawn from the open file (TSTEP for IOAPI-class files).")
 RULE += (' Pieces saved to disk and opened one by one are also handed to stack_files and to the stack method as open files.')
+RULE += (' One plain receiver from disk in three is written with netCDF4 directly, as other tools write archive files (float data variables packed as int16 with scale_factor/add_offset, masks as _FillValue).')
 ASSUMPTIONS = [
     'dimension dict order is not demanded (not named by the property)',
     'variables without the stacked dimension are compared with the first '
@@ -168,11 +169,18 @@ def run_concat_disk(spec, res, files, snaps0):
     with harness.casedir() as d, harness.handles() as h:
         paths = []
         try:
+            foreign = spec['seeds'][0] % 3 == 0
             for f, lab in zip(files, spec['labels']):
                 p = os.path.join(d, 'piece_%d.nc' % lab)
-                o = h.keep(f.save(p, format='NETCDF4', verbose=0))
-                o.close()
+                if foreign:
+                    # pieces as other tools write them (packed variables)
+                    harness.write_foreign(f, p)
+                else:
+                    o = h.keep(f.save(p, format='NETCDF4', verbose=0))
+                    o.close()
                 paths.append(p)
+            if foreign:
+                res.facet('pieces:written-by-netCDF4-packed')
             snaps = []
             for p in paths:
                 g = h.keep(pnc.pncopen(p, format='netcdf'))
